@@ -151,6 +151,28 @@ func (a *Analysis) unitFactsRaw(st *CNF) []ufact {
 	return out
 }
 
+// eqClass: t and every term the unit equalities of st identify with it.
+func (a *Analysis) eqClass(st *CNF, t *Term) []*Term {
+	out := []*Term{t}
+	seen := map[*Term]bool{t: true}
+	for changed := true; changed; {
+		changed = false
+		for _, f := range a.unitFactsRaw(st) {
+			if f.kind != KEq || !f.pos {
+				continue
+			}
+			for _, pr := range [][2]*Term{{f.A, f.B}, {f.B, f.A}} {
+				if seen[pr[0]] && !seen[pr[1]] {
+					seen[pr[1]] = true
+					out = append(out, pr[1])
+					changed = true
+				}
+			}
+		}
+	}
+	return out
+}
+
 // factGE: st establishes x >= y (terms).
 func (a *Analysis) factGE(st *CNF, x, y *Term) bool {
 	x, y = a.Canon(st, x), a.Canon(st, y)
